@@ -25,7 +25,8 @@ W_ASCII = ["der", "Hund", "bellt", "laut", "Haus", "und", "a", "b", "sieht", "x1
 W_LATIN1 = ["Käse", "über", "façade", "Straße", "Ärger"]
 W_WIDE = ["łódź", "中文", "\U0001d518ber", "\U0001f600x", "αβ"]
 W_XML = ["a&b", "<tag>", "\"q\"", "it's", "x>y", "&amp;", "<"]
-W_PAREN = ["(", ")", "-LRB-", "-RRB-", "[", "]", "{", "}", "a(b", "-LSB-"]
+W_PAREN = ["(", ")", "-LRB-", "-RRB-", "[", "]", "{", "}", "a(b", "-LSB-", "(s)", "[x]",
+           "{a}(b)", "f(x)[0]"]
 W_PUNCT = [",", ".", "?", "!", ";", ":", "--", "-", "/", "..."]
 W_PAIR = ["\"", "'", "''", "`", "``"]
 W_HASH = ["#5021", "#12", "#", "#abc", "#1234x", "##", "#500th"]
@@ -245,6 +246,39 @@ def clone(x):
 def summary(sent):
     return {"n": len(sent["tokens"]), "const": n_constituents(sent),
             "gap": gap_degree(sent), "depth": depth(sent["root"])}
+
+
+def big_sentence(rng, nconst, sid=1):
+    """A shallow sentence with exactly nconst non-root constituents (export numbers them
+    500..999): balanced binary merges plus unary nodes directly above tokens."""
+    ntok = max(2, nconst // 2)
+    tokens = [["w%d" % (i % 7), "NN", "--", "--", "--"] for i in range(ntok)]
+    items = list(range(1, ntok + 1))
+    made = 0
+    unary_needed = max(0, nconst - (ntok - 1))
+    # unary nodes above (some) tokens first
+    for i in range(len(items)):
+        if made < unary_needed:
+            items[i] = [rng.choice(["NP", "VP"]), "--", [items[i]]]
+            made += 1
+    extra = unary_needed - made
+    # balanced binary merges
+    while len(items) > 1 and made < nconst:
+        nxt = []
+        i = 0
+        while i < len(items):
+            if i + 1 < len(items) and made < nconst:
+                nxt.append([rng.choice(["NP", "VP", "S"]), "--", [items[i], items[i + 1]]])
+                made += 1
+                i += 2
+            else:
+                nxt.append(items[i])
+                i += 1
+        items = nxt
+    for _ in range(max(0, nconst - made)):
+        i = rng.randrange(len(items))
+        items[i] = ["S", "--", [items[i]]]
+    return {"sid": sid, "tokens": tokens, "root": [ROOT, "--", items]}
 
 
 def token_tree(rng, k, sid=1):
